@@ -1,18 +1,31 @@
 #!/bin/sh
 # MANIFEST.setup_cmd: build the framework offline from files on disk only.
-set -e
+# Builds, per claimed property, its theorem modules and its model driver (a property still under
+# construction cannot break the setup of the others), goext, and warms the Go build cache for the harnesses.
 cd "$(dirname "$0")"
 export GOFLAGS=-mod=mod GOPROXY=off CGO_ENABLED=0
-( cd lean && lake build )
 S=/var/tmp/verif.setup.$$
 trap 'rm -rf "$S"' EXIT
 mkdir -p "$S"
-( cd tools/goext && go build -o "$S/goext" . )
-python3 tools/mkoverlay.py "$S/ov" >/dev/null
-# warm the Go build cache for every harness (the dependency graph of chain/p2p is large)
-for h in harness/*/; do
-  n=$(basename "$h")
-  [ -f "$h/main.go" ] || continue
-  ( cd /repo && go build -tags verif -overlay "$S/ov/overlay.json" -o "$S/h_$n" "./zz_verif/$n" ) || echo "setup: harness $n does not build" >&2
-done
-echo "setup ok"
+python3 - <<'PY' > "$S/targets"
+import json, glob, os
+for f in sorted(glob.glob("tools/props.d/C*.json")):
+    c = json.load(open(f))
+    if not c.get("claimed"):
+        continue
+    pid = os.path.basename(f)[:-5]
+    drv = c.get("driver", "model-" + pid.lower())
+    print(pid, c.get("harness", ""), " ".join(c["lean_props"] + ([drv] if drv else [])))
+PY
+rc=0
+while read pid harness targets; do
+  ( cd lean && lake build $targets ) >"$S/lake.$pid.log" 2>&1 || { echo "setup: lake build failed for $pid" >&2; tail -5 "$S/lake.$pid.log" >&2; rc=1; }
+done < "$S/targets"
+( cd tools/goext && go build -o "$S/goext" . ) || rc=1
+python3 tools/mkoverlay.py "$S/ov" >/dev/null || rc=1
+while read pid harness targets; do
+  [ -n "$harness" ] || continue
+  ( cd /repo && go build -tags verif -overlay "$S/ov/overlay.json" -o "$S/h_$harness" "./zz_verif/$harness" ) || { echo "setup: harness $harness does not build" >&2; rc=1; }
+done < "$S/targets"
+[ $rc -eq 0 ] && echo "setup ok"
+exit $rc
